@@ -154,7 +154,7 @@ func spaces(tier string) []*gridx.Space {
 	A := func(n string, v ...float64) gridx.Axis { return gridx.Axis{Name: n, Vals: v} }
 	var out []*gridx.Space
 	add := func(a *acct, params [][]float64, names []string, T int) {
-		out = append(out, &gridx.Space{Model: a.model, Params: params, PNames: names, Letters: letters, T: T, MinT: 1, Prefix: pre, Oracle: oracle(a)})
+		out = append(out, &gridx.Space{Model: a.model, Params: params, PNames: names, Letters: letters, T: T, MinT: 1, Prefix: pre, Oracle: oracle(a), SecondPassEvery: 16})
 	}
 
 	// GR4J
